@@ -116,11 +116,15 @@ def _(value: Enum):
 @customize_repr
 def _(value: Flag):
     name = type(value).__qualname__
-    flags = [f"{name}.{flag.name}" for flag in type(value) if flag in value]
-    if not flags:
+    members = [flag for flag in type(value) if flag in value]
+    named_bits = 0
+    for flag in members:
+        named_bits |= flag.value
+    if not members or named_bits != value.value:
         # the empty flag has no named members
+        # and an IntFlag can have bits without a name
         return f"{name}({value.value!r})"
-    return " | ".join(flags)
+    return " | ".join(f"{name}.{flag.name}" for flag in members)
 
 
 def sort_set_values(set_values):
